@@ -247,6 +247,12 @@ fn c19_alphabet(t_now: u64) -> Vec<Step> {
             v.push(Step::Send(Spec::SwapGain(1 - seg, *t)));
         }
     }
+    // finite-loop data written to the idle segment without a transition (to be swapped in later)
+    for seg in [0u8, 1] {
+        v.push(Step::Send(Spec::Mod { seg, tr: None, rep: 0, div: 10, n: 6, seed: 60 }));
+        v.push(Step::Send(Spec::Foci { n: 2, seg, tr: None, rep: 1, div: 512, ss: 21760, size: 3, seed: 61 }));
+        v.push(Step::Send(Spec::GainStm { mode: 0, seg, tr: None, rep: 2, div: 300, size: 3, seed: 62 }));
+    }
     v.extend([
         Step::Send(Spec::Gain { seg: 1, tr: Some((0xFF, 0)), seed: 9 }),
         Step::Send(Spec::Gain { seg: 0, tr: None, seed: 9 }),
@@ -271,14 +277,17 @@ fn run_seq_c19(out: &mut Out, seq: &[Step], advs: &[u64], tag: &str) {
     s.send(&Spec::Clear);
     s.send(&Spec::SilSteps(1, 1, false));
     let mut verdict = None;
+    let mut at_line = 0u64;
     for (k, st) in seq.iter().enumerate() {
         apply(&mut s, st);
         if !s.dead {
             let t = s.w.t + advs[k % advs.len()];
             s.clk(t);
         }
+        at_line = s.out.lines;
         if !s.dead {
             let r = s.read();
+            at_line = s.out.lines;
             if r.contains('P') {
                 // a read-back accessor aborted (caught per accessor): find out which and where
                 let cpu = &s.w.cpus[0];
@@ -300,7 +309,7 @@ fn run_seq_c19(out: &mut Out, seq: &[Step], advs: &[u64], tag: &str) {
     if let Some((site, what)) = verdict {
         // keyed by the call site of the abort, so that one root cause is one finding
         out.count(&format!("panic:{site}"));
-        out.violation(format!("C19:panic:{site}"), what, log);
+        out.violation_at(format!("C19:panic:{site}"), what, log, at_line);
     }
 }
 
